@@ -36,6 +36,11 @@ class Universe(object):
         self.profile = profile
         p = profile
         self.schemes = [b"s:http|", b"s:https|"] + ([b"s:ftp|"] if rng.random() < 0.2 else [])
+        if p.get("long", 0) and rng.random() < p.get("longfirst", 0.2):
+            # a long FIRST stem (the root node of the trie then has tail blocks)
+            n = rng.choice([75, 80, 148, 149, 223])
+            self.schemes = [b"s:" + bytes(rng.choice(b"abcdefghijklmnopqrstuvwxyz") for _ in range(n - 3)) + b"|"] \
+                + self.schemes[:1]
         self.ports = [b"t:80|", b"t:8080|"]
         self.tlds = rng.sample([b"h:com|", b"h:org|", b"h:fr|"], 1 if p.get("concentrate") else 2)
         self.doms = rng.sample([b"h:ex|", b"h:a|", b"h:b|", b"h:world|"],
@@ -265,10 +270,31 @@ class Driver(object):
         if name == "AddLinks":
             n = rng.choice([1, 2, 3, 4])
             pairs = []
+            if we and rng.random() < self.profile.get("siblinks", 0.0):
+                # one page links to a webentity prefix P and to plain siblings of P (same trie parent)
+                from impl import stems_of
+                P = rng.choice(rng.choice(list(we.values())))
+                st = stems_of(P)
+                if len(st) >= 3:
+                    par = b"".join(st[:-1])
+                    s = rng.choice([l for l, _ in self.last_pages] or [u.page()])
+                    sibs = [par + x for x in rng.sample(u.paths[:4], 2) if par + x != P]
+                    pairs = [(s, P)] + [(s, x) for x in sibs]
+                    if rng.random() < 0.5:
+                        pairs += [(x, s) for x in [P] + sibs[:1]]
+                    if rng.random() < 0.5:
+                        rng.shuffle(pairs)
+                    if self.family_ok([x for pr in pairs for x in pr]):
+                        return {"op": name, "pairs": pairs}
+                    pairs = []
             for _ in range(n):
                 s, t = u.page(), u.page()
                 if rng.random() < self.profile.get("homelinks", 0.2):
                     t = u.host_prefix()          # links to home pages: targets that are webentity prefixes
+                if we and rng.random() < self.profile.get("prefixlinks", 0.15):
+                    t = rng.choice(rng.choice(list(we.values())))   # a link end that is itself a webentity prefix
+                    if rng.random() < 0.4:
+                        s = rng.choice(rng.choice(list(we.values())))
                 if rng.random() < 0.15:
                     t = s
                 pairs.append((s, t))
